@@ -97,7 +97,8 @@ _GEM = [b"gemini://", b"gemini://h", b"gemini://h/", b"gemini://h:1965/f.txt", b
 for g in _GEM:
     RAW_LINES.append(g + b"\r\n")
 _SPARTAN = [b"h / 0", b"h /f.txt 0", b"h /f.txt 3\r\nabc", b"h /f.txt 9\r\nabc", b"h /f.txt 0\r\nabc", b"h /%0d%0a2 x 0", b"h /x%0ay 0",
-            b"h f.txt 0", b"h /a/ 00", b"h /f.txt -1", b"h /f.txt 1e3", b"h  /f.txt 0", b"h /%00 0", b"h /p.pyg 3\r\n\xff\xfe\xfd", b"h /../x 0"]
+            b"h f.txt 0", b"h /a/ 00", b"h /f.txt -1", b"h /f.txt 1e3", b"h  /f.txt 0", b"h /%00 0", b"h /p.pyg 3\r\n\xff\xfe\xfd", b"h /../x 0",
+            b"h / \xc2\xb2", b"h /f.txt \xd9\xa1", b"h /f.txt \xe2\x91\xa0", b"h\xc3\xa9 /f.txt 0", b"h /f\xc3\xa9 0", b"h /f.txt 0\xc2\xa0"]
 for s in _SPARTAN:
     RAW_LINES.append(s + (b"\r\n" if b"\r\n" not in s else b""))
 
